@@ -368,7 +368,31 @@ def run(chk):
             r5.fail("%s:content-dependent:%s" % (f.qualname, c.func.attr), "%s applies `.%s(...)` to received payload (`%s`): a value is binary data whose bytes may be anything (it may end in CR, contain CR LF or protocol keywords), so trimming or searching by content changes or truncates values for particular contents and splits" % (f.qualname, c.func.attr, node_src(c, 60)), fn=f, node=c)
         if not bad:
             r5.ok("%s uses positions only" % f.qualname)
-    chk.assume("the numeric bookkeeping of _readvalue (rlen across pieces) and of _readline's straddle branch is not decided here")
+    # ------------------------------------------------------------------ R6 every segmentation of short reply streams
+    r6 = chk.rule("C03.R6", "segmentation rows: each reader, interpreted on exact byte strings for every way a short reply stream can be cut into pieces (and every split between the leftover handed in and the pieces to come), returns the same result and leftover, asks for no piece beyond the one that completes the reply, and raises when the peer hangs up first")
+    from . import seghist
+
+    rows = seghist.segmentation_rows(prog, reader_fns, byte_sources, tier=getattr(chk, "tier", "quick"))
+    total = 0
+    for fname in sorted(rows):
+        kind, n, bad = rows[fname]
+        f = mod.functions[fname]
+        if kind is None:
+            r6.undecided("%s:reader-kind" % f.qualname, "%s reaches recv and takes a buffer, but its signature is none of (sock, buf), (sock, buf, size: int), (sock, buf, end_tokens: bytes): no segmentation rows are known for it" % f.qualname)
+            continue
+        total += n
+        fails = [b for b in bad if b[0] == "fail"]
+        undec = [b for b in bad if b[0] == "undecided"]
+        if fails:
+            st, text, buf0, pieces, third = min(fails, key=lambda b: (len(b[3]), len(b[2]) + sum(map(len, b[3]))))
+            r6.fail("%s:segmentation" % f.qualname, "%s (%s reader): with the leftover %r handed in%s and the pieces %s arriving, it %s [%d of %d rows fail]" % (f.qualname, kind, buf0, "" if third is None else ", third argument %r" % (third,), list(pieces), text, len(fails), n), fn=f, node=f.node, witness="buf=%r pieces=%r arg=%r" % (buf0, list(pieces), third))
+        elif undec:
+            st, text, buf0, pieces, third = undec[0]
+            r6.undecided("%s:segmentation" % f.qualname, "%s (%s reader): %d of %d rows are not evaluated exactly, e.g. leftover %r, pieces %s: %s" % (f.qualname, kind, len(undec), n, buf0, list(pieces), text))
+        else:
+            r6.ok("%s (%s reader): %d rows (stream x segmentation x leftover split), all as specified" % (f.qualname, kind, n))
+    r6.floor("segmentation rows evaluated", total, 20000)
+    chk.assume("segmentation equivalence is decided for the streams of C03.R6 (every string over {a, CR, LF} up to 4-5 bytes, sized values up to 2-3 bytes with every content, seven end tokens with partial-token bodies; every segmentation of the short ones, up to two cuts of the longer ones); streams beyond those, and the exchange loops' composition of readers, rest on the liveness rules R1/R4")
 
 
 ACC, NEW, TOKEN = Opaque("all-bytes-so-far"), Opaque("new-chunk"), Opaque("end-token")
